@@ -1,0 +1,8 @@
+//go:build verif
+
+package minersc
+
+// VerifUnitchainReduce exposes SimpleNodes.reduce (view-change node selection) to the verification harness.
+func VerifUnitchainReduce(sns SimpleNodes, limit int, xPercent float64, pmbrss int64, pmbnp Pooler) int {
+	return sns.reduce(limit, xPercent, pmbrss, pmbnp)
+}
